@@ -8,6 +8,8 @@
 //!                                                        damage the machine: remove_dir_all("/") ...)
 //!   arg_timeout   param = context * 16 + timeout index (every *_with_timeout / poll based call, epoll wait)
 //!   arg_openopts  param = six OpenOptions booleans + 64 * (target exists)
+//!   arg_peer      param = op * 16 + peer kind          (accept flavours / getsockname x raw-libc peers bound to
+//!                                                        unnamed, autobind, abstract and 1/107/108 byte path addresses)
 //!   arg_misc      param = index into MISC (buffers, counts, addresses, argv/env, uid/gid/pgroup, epoll, io_uring)
 //! `fd_probe variants` lists "<family id> <param> <operation> <label>" for every valid combination.
 use super::*;
@@ -989,6 +991,145 @@ pub fn s_arg_misc(cx: &mut Cx) {
     }
 }
 
+// ------------------------------------------------------------------------------------------------ unusual peers
+
+/// Peers written with raw libc calls (not rusl), bound to addresses rusl itself never produces; the kernel
+/// writes them into the address buffer of accept4 / getsockname.
+pub const PEER_KINDS: &[&str] = &[
+    "unnamed",
+    "autobind",
+    "abstract_1",
+    "abstract_5",
+    "abstract_50",
+    "abstract_107_full",
+    "path_1",
+    "path_50",
+    "path_107",
+    "path_108_no_nul",
+];
+pub const PEER_OPS: &[&str] = &[
+    "unix_accept",
+    "unix_accept_with_timeout",
+    "unix_try_accept",
+    "rusl_accept_unix",
+    "rusl_get_unix_sock_name",
+];
+pub const PEER_NPARAMS: i64 = 16 * PEER_OPS.len() as i64;
+
+/// (sockaddr_un bytes, address length handed to bind); length 0 = do not bind
+fn peer_addr(kind: &str) -> ([u8; 110], u32) {
+    let mut a = [0u8; 110];
+    a[0] = 1; // AF_UNIX, little endian u16
+    let fill = |a: &mut [u8; 110], from: usize, n: usize| {
+        for (i, b) in a[from..from + n].iter_mut().enumerate() {
+            *b = b'a' + (i % 26) as u8;
+        }
+    };
+    let len = match kind {
+        "unnamed" => 0,
+        "autobind" => 2,
+        "abstract_1" => {
+            fill(&mut a, 3, 1);
+            2 + 1 + 1
+        }
+        "abstract_5" => {
+            fill(&mut a, 3, 5);
+            2 + 1 + 5
+        }
+        "abstract_50" => {
+            fill(&mut a, 3, 50);
+            2 + 1 + 50
+        }
+        "abstract_107_full" => {
+            fill(&mut a, 3, 107);
+            110
+        }
+        "path_1" => {
+            fill(&mut a, 2, 1);
+            2 + 1 + 1
+        }
+        "path_50" => {
+            fill(&mut a, 2, 50);
+            2 + 50 + 1
+        }
+        "path_107" => {
+            fill(&mut a, 2, 107);
+            110
+        }
+        _ => {
+            // sun_path filled completely, no terminator: the kernel reports a length of 111 for this peer
+            fill(&mut a, 2, 108);
+            110
+        }
+    };
+    (a, len)
+}
+
+pub fn s_arg_peer(cx: &mut Cx) {
+    let (Some(op), Some(kind)) = (
+        PEER_OPS.get((cx.param / 16) as usize).copied(),
+        PEER_KINDS.get((cx.param % 16) as usize).copied(),
+    ) else {
+        cx.skip(9);
+        return;
+    };
+    let d = cx.fresh_dir();
+    // path peers bind relative names inside the scratch directory (a 108 byte absolute path would not fit)
+    let _ = std::env::set_current_dir(&d);
+    let Ok(mut l) = UnixListener::bind(&us("srv")) else {
+        cx.skip(1);
+        let _ = std::env::set_current_dir("/");
+        return;
+    };
+    let lfd = {
+        const _: () = assert!(core::mem::size_of::<UnixListener>() == 4);
+        unsafe { *(core::ptr::from_ref(&l).cast::<i32>()) }
+    };
+    let (addr, alen) = peer_addr(kind);
+    let mut srv = [0u8; 110];
+    srv[0] = 1;
+    srv[2..5].copy_from_slice(b"srv");
+    let c = unsafe { socket(1, 1 | 0o2_000_000, 0) };
+    let ok = c >= 0
+        && (alen == 0 || unsafe { bind(c, addr.as_ptr(), alen) } == 0)
+        && unsafe { connect(c, srv.as_ptr(), 6) } == 0;
+    if !ok {
+        cx.skip(7);
+        unsafe {
+            close(c);
+        }
+        let _ = std::env::set_current_dir("/");
+        return;
+    }
+    match op {
+        "unix_accept" => {
+            cx.run(&[], || l.accept(), no_raw);
+        }
+        "unix_accept_with_timeout" => {
+            cx.run(&[], || l.accept_with_timeout(Duration::from_millis(50)), no_raw);
+        }
+        "unix_try_accept" => {
+            cx.run(&[], || l.try_accept(), no_raw);
+        }
+        "rusl_accept_unix" => {
+            cx.run(
+                &[],
+                || rusl::network::accept_unix(fd_of(lfd), SocketFlags::SOCK_CLOEXEC).map(|(fd, _peer)| fd),
+                |f| [f.value(), -1, -1, -1, -1, -1, -1, -1],
+            );
+        }
+        _ => {
+            // reads the kernel-written address of the unusually bound socket itself; creates nothing
+            cx.run(&[], || rusl::network::get_unix_sock_name(fd_of(c)).map(|_| ()), no_raw);
+        }
+    }
+    unsafe {
+        close(c);
+    }
+    drop(l);
+    let _ = std::env::set_current_dir("/");
+}
+
 /// `fd_probe variants`: "<family name> <param> <operation> <label>" for every valid combination
 pub fn print_variants() {
     for p in 0..PATH_NPARAMS {
@@ -1008,5 +1149,10 @@ pub fn print_variants() {
     }
     for (p, (op, l, _)) in MISC.iter().enumerate() {
         println!("arg_misc {p} {op} {l}");
+    }
+    for p in 0..PEER_NPARAMS {
+        if let (Some(op), Some(kind)) = (PEER_OPS.get((p / 16) as usize), PEER_KINDS.get((p % 16) as usize)) {
+            println!("arg_peer {p} {op} peer_{kind}");
+        }
     }
 }
